@@ -162,13 +162,21 @@ def resolve_kw(cfg, dip_deg, extra=None):
     return kw
 
 
-def stream(cfg, inst, q0, G_, A, M, dt=None, feed_raw=False):
+def stream(cfg, inst, q0, G_, A, M, dt=None, feed_raw=False, state_form="array"):
     """Feed samples 1..N-1 one at a time through the update method, starting from q0 (= row 0); dt, when given, is passed to every call.
     feed_raw: hand the object update() returned straight back as the next a-priori attitude (q = f.update(q, ...)), instead of a plain array."""
     Q = [np.array(q0, float)]
     k = {} if dt is None else {"dt": dt}
     prev = Q[-1]
+    if state_form == "Quaternion":       # the attitude kept by the caller as the library's own Quaternion object: the first one built by hand, then whatever update() returned
+        import ahrs
+        prev, feed_raw = ahrs.Quaternion(Q[-1].copy()), True
     for t in range(1, len(G_)):
+        if state_form == "list":
+            prev, feed_raw = [float(x) for x in Q[-1]], True
+        elif state_form == "Quaternion" and not (type(prev).__name__ == "Quaternion"):
+            import ahrs
+            prev = ahrs.Quaternion(np.array(prev, float))
         prev = cfg.step(inst, prev if feed_raw else Q[-1], G_[t], A[t], None if M is None else M[t], **k)
         Q.append(np.array(prev, dtype=float))
     return np.array(Q)
